@@ -566,3 +566,19 @@ SPLIT_MUTANTS = [
 ]
 TWINS = TWINS + SPLIT_TWINS
 MUTANTS = MUTANTS + SPLIT_MUTANTS
+# the same, further spellings: three parts, parts joined by unpacking into a display, bound by an index local
+SPLIT2_TWINS = [
+    {'name': 'split:contains-unpack-first-rest', 'edits': [(S, '        for d in self.dicts:\n            if key in d:\n                return True\n        return False', '        if not self.dicts:\n            return False\n        first, *rest = self.dicts\n        if key in first:\n            return True\n        for d in rest:\n            if key in d:\n                return True\n        return False')]},
+    {'name': 'split:getlist-three-parts', 'edits': [(S, '        rv = []\n        for d in self.dicts:\n            rv.extend(d.getlist(key, type))  # type: ignore[arg-type]\n        return rv', '        dicts = self.dicts\n        rv = []\n        for d in dicts[:1]:\n            rv.extend(d.getlist(key, type))\n        for d in dicts[1:2]:\n            rv.extend(d.getlist(key, type))\n        for d in dicts[2:]:\n            rv.extend(d.getlist(key, type))\n        return rv')]},
+    {'name': 'split:keys-union-star-parts', 'edits': [(S, '        return set(k for d in self.dicts for k in d)', '        return set().union(*self.dicts[:1], *self.dicts[1:])')]},
+    {'name': 'split:getitem-star-join', 'edits': [(S, '        for d in self.dicts:\n            if key in d:\n                return d[key]\n        raise exceptions.BadRequestKeyError(key)', '        first, rest = self.dicts[:1], self.dicts[1:]\n        for d in [*first, *rest]:\n            if key in d:\n                return d[key]\n        raise exceptions.BadRequestKeyError(key)')]},
+    {'name': 'split:len-index-var', 'edits': [(S, '        return len(self._keys_impl())', '        n = 1\n        keys = set()\n        for d in self.dicts[:n]:\n            keys.update(d)\n        for d in self.dicts[n:]:\n            keys.update(d)\n        return len(keys)')]},
+]
+SPLIT2_MUTANTS = [
+    {'name': 'split:three-parts-overlap-gap', 'expect': 'R8.7', 'edits': [(S, '        rv = []\n        for d in self.dicts:\n            rv.extend(d.getlist(key, type))  # type: ignore[arg-type]\n        return rv', '        dicts = self.dicts\n        rv = []\n        for d in dicts[:1]:\n            rv.extend(d.getlist(key, type))\n        for d in dicts[1:3]:\n            rv.extend(d.getlist(key, type))\n        for d in dicts[2:]:\n            rv.extend(d.getlist(key, type))\n        return rv')]},
+    {'name': 'split:union-star-parts-gap', 'expect': 'R8.7', 'edits': [(S, '        return set(k for d in self.dicts for k in d)', '        return set().union(*self.dicts[:1], *self.dicts[2:])')]},
+    {'name': 'split:star-join-swapped', 'expect': 'R8.7', 'edits': [(S, '        for d in self.dicts:\n            if key in d:\n                return d[key]\n        raise exceptions.BadRequestKeyError(key)', '        first, rest = self.dicts[:1], self.dicts[1:]\n        for d in [*rest, *first]:\n            if key in d:\n                return d[key]\n        raise exceptions.BadRequestKeyError(key)')]},
+    {'name': 'split:contains-first-only-early-false', 'expect': 'R8.7', 'edits': [(S, '        for d in self.dicts:\n            if key in d:\n                return True\n        return False', '        if not self.dicts:\n            return False\n        first, *rest = self.dicts\n        if key not in first:\n            return False\n        for d in rest:\n            if key in d:\n                return True\n        return True')]},
+]
+TWINS = TWINS + SPLIT2_TWINS
+MUTANTS = MUTANTS + SPLIT2_MUTANTS
